@@ -308,10 +308,133 @@ def check_gtf_default(ctx, case, res):
                     observed=got, expected=case["expected_keys"])
 
 
+# ---- the default id_spec is that of the DATABASE'S FORMAT (importer), not of the notation of the data ----------------
+GFF_DEFAULT_SPEC = dbside.IdSpec("L", [("a", "ID")], form="str")
+GTF_DEFAULT_SPEC = dbside.IdSpec("D", table={"gene": [("a", "gene_id")], "transcript": [("a", "transcript_id")]})
+BASE_GFF3 = [gen_db.gff_line("chrB", "region", 1, 10, "+", [("ID", ["base1"])]),
+             gen_db.gff_line("chrB", "region", 20, 30, "+", [("ID", ["base2"])])]
+BASE_GTF = [gen_db.gtf_line("chrB", "gene", 1, 100, "+", [("gene_id", ["G0"])]),
+            gen_db.gtf_line("chrB", "transcript", 1, 100, "+", [("gene_id", ["G0"]), ("transcript_id", ["T0"])])]
+
+
+def rand_features_ids(r, n):
+    """records whose lines carry ID, gene_id, transcript_id and Name in every combination (single values), of the
+    featuretypes both default id_specs distinguish"""
+    out = []
+    for i in range(n):
+        ft = r.choice(["gene", "transcript", "exon", "CDS"])
+        attrs = []
+        if r.random() < 0.75:
+            attrs.append(("gene_id", ["g%d" % r.randrange(0, 3)]))
+        if r.random() < 0.7:
+            attrs.append(("transcript_id", ["t%d" % r.randrange(0, 4)]))
+        if r.random() < 0.65:
+            attrs.append(("ID", ["i%d" % r.randrange(0, n + 2)]))
+        if r.random() < 0.3:
+            attrs.append(("Name", ["nm%d" % r.randrange(0, 3)]))
+        r.shuffle(attrs)
+        if not attrs:
+            attrs = [("note", ["x%d" % i])]
+        out.append({"seqid": r.choice(["chr1", "chr2"]), "source": "src", "ftype": ft, "start": r.randrange(1, 1000),
+                    "end": r.randrange(1000, 2000), "strand": r.choice("+-"), "attrs": attrs})
+    return out
+
+
+def lines_in(notation, feats):
+    if notation == "gtf":
+        return [gen_db.gtf_line(f["seqid"], f["ftype"], f["start"], f["end"], f["strand"], f["attrs"]) for f in feats]
+    return [gen_db.gff_line(f["seqid"], f["ftype"], f["start"], f["end"], f["strand"], f["attrs"]) for f in feats]
+
+
+def check_defaults(ctx, case, res, cmds=None, exp=None, tags=None):
+    """scenario 'force_gff_default': GTF-notation lines imported with force_gff=True and no id_spec are keyed by the GFF
+    default ('ID'); scenario 'update_default': an update() without id_spec files the new features under the default
+    id_spec of the database's format whatever notation the update data is written in (a GTF file, or Features parsed
+    from GFF3 lines, added to a database of the other format)"""
+    import warnings
+    from gffutils.feature import feature_from_line
+    lines, feats = case["input"], case["records"]
+    if len(lines) != len(feats) or not lines:
+        return
+    cfg = dbside.Cfg.from_json(case["config"])
+    want_spec = GFF_DEFAULT_SPEC if case["db_format"] == "gff3" else GTF_DEFAULT_SPEC
+    want, rejected = ref_keys(feats, want_spec, "create_unique")
+    inp = {"scenario": case["scenario"], "lines": lines, "db_format": case["db_format"], "base": case.get("base"),
+           "form": case.get("form"), "config": cfg.describe()}
+    if case["scenario"] == "force_gff_default":
+        path = dbside.write_lines(os.path.join(ctx.scratch, "c04d.gtf"), lines)
+        db, rep = dbside.py_create(path, cfg)
+        nbase = 0
+        if cmds is not None:
+            cmds.append(dbside.cmd_create(lines, cfg)); exp.append(rep); tags.append(("create_db force_gff", repr(inp)))
+    else:
+        bcfg = dbside.Cfg.from_json(case["base_config"])
+        bpath = dbside.write_lines(os.path.join(ctx.scratch, "c04b.txt"), case["base"])
+        db, rep = dbside.py_create(bpath, bcfg)
+        nbase = len(case["base"])
+        if cmds is not None:
+            cmds.append(dbside.cmd_create(case["base"], bcfg)); exp.append(rep); tags.append(("create_db base", repr(inp)))
+        if db is None:
+            common.fail(res, case, "create_db_raised", "create_db raised on the base file: " + rep, error=rep)
+            return
+        upath = dbside.write_lines(os.path.join(ctx.scratch, "c04u.txt"), lines)
+        try:
+            with warnings.catch_warnings():
+                warnings.simplefilter("ignore")
+                if case.get("form") == "features":
+                    db.update([feature_from_line(l) for l in lines], make_backup=False, **cfg.update_kwargs())
+                else:
+                    db.update(upath, make_backup=False, **cfg.update_kwargs())
+            rep = "ok"
+        except Exception as ex:
+            rep = "err " + dbside.err_name(ex)
+            db = None
+        if cmds is not None:
+            cmds.append(dbside.cmd_update(lines, cfg)); exp.append(rep); tags.append(("update other notation", repr(inp)))
+    if want is None:
+        res.count("defaults_create_unique_name_taken")
+        return
+    if db is None:
+        common.fail(res, case, "create_db_raised", "the import raised although every line has a well-defined key: " + rep,
+                    error=rep, observed=rep, expected="ok")
+        return
+    got = [str(x["id"]) for x in dbside.rows_of(db)][nbase:]
+    if cmds is not None:
+        cmds.append("dump"); exp.append(dbside.dump(db)); tags.append(("tables after " + case["scenario"], repr(inp)))
+    if got != want:
+        common.fail(res, case, "default_idspec_not_by_format",
+                    "with id_spec=None the keys do not follow the default id_spec of the database's format (%s)"
+                    % case["db_format"], observed=got, expected=want)
+        return
+    for k in got[:3]:
+        try:
+            if db[k].id != k:
+                common.fail(res, case, "lookup_wrong", "db[key] is not the feature stored under that key", key=k)
+        except Exception as ex:
+            common.fail(res, case, "lookup_raised", "db[%r] raised %r" % (k, ex), error=dbside.err_name(ex), key=k)
+
+
+def gen_defaults(r, i):
+    feats = rand_features_ids(r, r.randrange(1, 9))
+    k = i % 3
+    if k == 0:
+        cfg = dbside.Cfg(strategy="create_unique", force_gff=True)
+        return mk_case("force_gff_default", lines_in("gtf", feats), feats, cfg, db_format="gff3")
+    cfg = dbside.Cfg(strategy="create_unique", disG=True, disT=True)
+    if k == 1:      # GTF-notation data into a GFF3 database
+        return mk_case("update_default", lines_in("gtf", feats), feats, cfg, db_format="gff3", base=BASE_GFF3,
+                       base_config=dbside.Cfg().to_json(), form=r.choice(["path", "features"]))
+    return mk_case("update_default", lines_in("gff3", feats), feats, cfg, db_format="gtf", base=BASE_GTF,
+                   base_config=dbside.Cfg(disG=True, disT=True).to_json(), form=r.choice(["path", "features"]))
+
+
 def judge(ctx, case):
     res = common.Result("C04")
     if case["scenario"] == "gtf_default_idspec":
         check_gtf_default(ctx, case, res)
+        return res
+    if case["scenario"] in ("force_gff_default", "update_default"):
+        check_defaults(ctx, case, res)
         return res
     lines, feats = case["input"], case["records"]
     if len(lines) != len(feats):
@@ -337,7 +460,9 @@ def run(ctx):
                 "id_spec form (default, string, list, ':field:', callable zoo incl. None/''/'autoincrement:X', dict of "
                 "string or list with missing featuretypes); merge_strategy create_unique so that all lines are kept; files "
                 "of 1-16 lines where ID / Name are defined twice by REPEATING THE KEY (ID=a;ID=b), inside and beyond the "
-                "inspection window (checklines 0-10) or with a supplied dialect. "
+                "inspection window (checklines 0-10) or with a supplied dialect; id_spec=None on GTF-notation input imported with "
+                "force_gff=True, and on update() data written in the other notation than the database's (GTF file or "
+                "GFF3-parsed Features): the default follows the database's format. "
                 "non-trivial = distinct (input, id_spec) where at least one key is not the plain ID attribute")
     cmds, exp, tags = [], [], []
     n = 250 if not ctx.thorough else 4000
@@ -408,6 +533,12 @@ def run(ctx):
                             "config": dbside.Cfg(disG=True, disT=True).to_json(),
                             "expected_keys": ["G", "T", "exon_1", "exon_2"]}, res)
     res.evaluations += 1
+    rd = ctx.rng("c04", "default id_spec by database format")
+    for i in range(90 if not ctx.thorough else 900):
+        dcase = gen_defaults(rd, i)
+        res.evaluations += 1
+        res.count("defaults_%s_%s_%s" % (dcase["scenario"], dcase["db_format"], dcase.get("form", "-")))
+        check_defaults(ctx, dcase, res, cmds, exp, tags)
     out = ctx.model(cmds)
     if out is not None:
         for c, m, e, (comp, inp) in zip(cmds, out, exp, tags):
